@@ -249,6 +249,8 @@ class ManifestMachine(FormatMachine):
         CTX.probe("mf.lookup_of_%s_tree" % ("a_filed" if known else "a_missing"))
         if d:
             P = "C12" if self.cfg.get("focus") == "C12" else "C03"
+            if self.cfg.get("focus") == "C10" and arch in ("src", "nosrc") and arch in (got.get(variant) or {}):
+                P = "C10"       # a source-arch key has appeared in the manifest ("source content is filed under binary arches")
             if self.watching(P):
                 raise Violation(P, "%s.lookup_changes_nothing" % P, "lookup-changed-manifest/%s" % self.FORMAT, {"diff": d, "known": known})
             s.model["payload"] = got
